@@ -723,6 +723,18 @@ def _emit_fn(g, source, a, blocks, vacuity, probe_insert=None):
         rep = "\n".join(ra["text"]).strip("\n")
         body = replace_pattern(body, ra["pattern"], rep, f.name, int(ra.get("count", 1)))
         rules.append((ra.get("rule", "R9"), f"replace `{ra['pattern']}` -> `{norm(rep)[:200]}`"))
+    # R12b: a `const NAME: T = <literal>;` of the same source file that the body refers to and the unit does not
+    # define is bound as a local at the top of the body (a new constant introduced by an edit stays within reach)
+    sofar = "\n".join(g.lines)
+    filesrc = source(f.file).src
+    for cand in sorted(set(re.findall(r"\b[A-Z][A-Z0-9_]{2,}\b", body))):
+        if re.search(r"\b%s\b" % cand, sofar) or re.search(r"\b%s\b" % cand, sigtext):
+            continue
+        mc = re.search(r"\bconst\s+%s\s*:\s*([\w:<>]+)\s*=\s*([0-9][0-9_]*(?:\s*[*+<]{1,2}\s*[0-9][0-9_]*)*|true|false)\s*;" % cand, filesrc)
+        if mc:
+            first_b = body.index("{")
+            body = body[:first_b + 1] + f"\n        let {cand}: {mc.group(1)} = {mc.group(2)};" + body[first_b + 1:]
+            rules.append(("R12b", f"`const {cand}: {mc.group(1)} = {mc.group(2)};` of {f.file} bound as a local"))
     # closures without a specification: Verus treats their result as unconstrained, so a NEW one can turn a correct
     # edit into a failed obligation.  The unit declares how many each function has (`closures=N`, default 0); more than
     # that is an unsupported construct (exit 2), never a violation.
@@ -732,7 +744,9 @@ def _emit_fn(g, source, a, blocks, vacuity, probe_insert=None):
         raise ExtractError(f"unsupported construct: {n_plain} closure(s) without a specification in {f.name} (the unit declares {a.get('closures', 0)})")
     for ia in blocks["inserts"]:
         txt = "\n" + "\n".join(ia["text"]) + "\n"
-        if "assert" in txt or "proof" in txt:
+        if ("assert" in txt or "proof" in txt) and not ia.get("guard"):
+            # (`guard`: an insert that is unreachable on the unchanged tree on purpose -- e.g. after a `loop` that only
+            # leaves through `return` -- and only becomes reachable, and then fails, when the code is changed)
             if probe_insert is not None and g.n_inserts == probe_insert:
                 txt += "assert(false); // REACH-PROBE\n"
                 g.probe_desc = f.name + " @ " + " ".join(f"{k}={v}" for k, v in ia.items() if k != "text")
